@@ -86,16 +86,18 @@ void check_C12(Src &s, Ctx &ctx) {
     std::vector<std::vector<std::vector<double>>> expect((size_t)nthreads);
     { TasmanianSparseGrid ref(st.g); for (int t = 0; t < nthreads; t++) for (auto &c : plan[(size_t)t]) expect[(size_t)t].push_back(run_call(ref, c)); }
     TasmanianSparseGrid second(st.g);   // round 1 runs on another untouched copy
+    // known finding C12-wavelet-lazy-interpolation-matrix: the first weight query of a wavelet grid is made before the threads start
+    if (st.g.isWavelet() && ctx.excl("C12-wavelet-lazy-interpolation-matrix")) { (void)st.g.getQuadratureWeights(); (void)second.getQuadratureWeights(); ctx.log("(wavelet interpolation matrix pre-built: known finding)"); }
     // concurrent rounds
     for (int round = 0; round < 2; round++) {
         const TasmanianSparseGrid &g = (round == 0) ? st.g : second;
         std::vector<std::vector<std::vector<double>>> got((size_t)nthreads); std::atomic<int> ready(0); std::atomic<bool> go(false); std::vector<std::string> errors((size_t)nthreads);
         std::vector<std::thread> th;
         for (int t = 0; t < nthreads; t++) th.emplace_back([&, t]() {
-            ready.fetch_add(1); while (!go.load(std::memory_order_acquire)) { }
+            ready.fetch_add(1); while (!go.load(std::memory_order_acquire)) std::this_thread::yield();
             volatile int spin = 0; for (int i = 0; i < jitter[(size_t)t] * (round + 1); i++) spin = spin + 1;
             try { for (auto &c : plan[(size_t)t]) got[(size_t)t].push_back(run_call(g, c)); } catch (std::exception &e) { errors[(size_t)t] = e.what(); } });
-        while (ready.load() < nthreads) { } go.store(true, std::memory_order_release);
+        while (ready.load() < nthreads) std::this_thread::yield(); go.store(true, std::memory_order_release);
         for (auto &x : th) x.join();
         for (int t = 0; t < nthreads; t++) {
             VF_REQUIRE("C12.exception-in-thread", errors[(size_t)t].empty(), "thread " << t << " threw: " << errors[(size_t)t]);
